@@ -20,6 +20,34 @@ CHECKS = {
         design="7 (C02), 4 (R2), 1 (N1)",
         technique="deterministic simulation: seeded constraint-store iteration order + posting-order permutations, ground-instance set oracle",
     ),
+    "C04": dict(
+        text="Seeded exploration of terminating tree and CLP(FD) programs x K seeded permutations of every conjunction and "
+             "clause list, all run under one simulated schedule (store iteration order decides which delayed constraint wakes "
+             "first; yields): the answer multiset of every permutation must equal the original's and both must equal an absolute "
+             "reference (reference interpreter answers compared as sets of ground instances; brute force for FD), so a "
+             "disagreement names the ordering that is wrong.",
+        design="7 (C04), 4 (R2, R3, R4)",
+        technique="deterministic simulation: differential runs over seeded goal/clause permutations under seeded wake-up order, instance-set / brute-force oracle",
+    ),
+    "C10": dict(
+        text="Seeded exploration of P, conde{A,B[,C]} programs whose branches post ==, !=, FD goals, domain narrowings and "
+             "user-state tags on shared variables with scripted leaf suspensions between their goals (so siblings' steps "
+             "interleave in many patterns), under a stateless schedule applied unchanged to every run: the multiset of (answer, "
+             "user tag log) of the disjunction must equal the union of the branches run alone; a clone of the suspended stream "
+             "taken mid-run must deliver exactly the original's remainder. Isolation only fails when a sibling runs between two "
+             "steps of a branch, i.e. it is a property of interleavings.",
+        design="7 (C10), 4 (R4), 1 (N2, N3)",
+        technique="deterministic simulation: scripted suspensions interleaving sibling branches + stream fork, differential multiset oracle",
+    ),
+    "C23": dict(
+        text="Monitor over the union of every generator of the framework, each program run under iteration-order policies, "
+             "yields and a consumer history over one Query (re-runs, interleaved iterators, drops, polling after the end) with a "
+             "step budget: any unwind other than the simulator's own budget signal is a violation, reported with the panic "
+             "message and location. The simulation-specific reach is the panics that need a history (second reach of a goal, "
+             "second run of a query), which no single-run test meets.",
+        design="7 (C23), 4 (R5)",
+        technique="deterministic simulation: panic monitor over all generators under seeded schedules and consumer histories",
+    ),
     "C05": dict(
         text="Seeded exploration of dfs{} programs under every leaf timing/shape, yield and reorder: an observer goal placed "
              "last inside the dfs block must see the block's answers in exactly the reference interpreter's depth-first "
